@@ -297,8 +297,8 @@ fn run(ctx: &mut Ctx) {
             let mut g = Gen::new(&mut rq, &snap, vocab.n_ent, vocab.n_pred, vocab.n_num);
             g.allow_edge = false;
             g.max_depth = if big { 1 } else { 2 };
-            g.max_top = 3;
-            g.max_nested = 2;
+            g.max_top = if big { 2 } else { 3 };
+            g.max_nested = if big { 1 } else { 2 };
             let (group, _) = g.gen_group(0, true);
             let q = Select { distinct: false, proj: Proj::Star, from: vec![], from_named: vec![], group, group_by: vec![], order: vec![], limit: None };
             let text = print_select(&q, &Style::default());
